@@ -160,6 +160,9 @@ func runSettleHist(t *testing.T, in []string) string {
 					if strings.Contains(l, "insufficient") {
 						log = ":why=insufficient"
 					}
+					if settleDbg && (p.kind == "claim" || p.kind == "wfr") {
+						fmt.Println(p.op, "->", shortLog(l))
+					}
 				}
 			}
 			f := strings.Fields(p.op)
@@ -318,4 +321,12 @@ func genSettleHist(r *Rng, i int, tier string) []string {
 	}
 	add("blk 1000")
 	return []string{fmt.Sprint(nv), strings.Join(ops, ";"), cfgMaxv, cfgTokens}
+}
+
+var settleDbg = false
+
+func runSettleHistDbg(in []string) string {
+	settleDbg = true
+	defer func() { settleDbg = false }()
+	return fmt.Sprint(len(runSettleHist(nil, in)))
 }
